@@ -2,14 +2,17 @@
 C14 — key export/import round-trips; JWK import is tolerant, strict and panic-free.
 ONLY property theorems, refutations with witnesses, and non-vacuity examples; the model is `Model/Jwk.lean`
 (configuration `Cfg.current` = what /repo does now; `Cfg.pinned` = both known defects present; `Cfg.fixed` = both repaired),
-helper lemmas and proofs are in `Lemmas/Jwk.lean`.  Curve arithmetic is the parameter `P : Prims`; no theorem assumes anything about it.
+helper lemmas and proofs are in `Lemmas/Jwk.lean`.  Curve arithmetic is the parameter `P : Prims`; no theorem assumes anything about it
+except `jwk_roundtrip*`, whose hypotheses on `P` are written out (`Prims.CurveLaws`, `Key.OnCurve`, `Key.PubCanonical`).
 
 Three full-strength statements are FALSE on the pinned tree and are kept visible as `def … : Prop` with a refutation:
 * `VisitIgnoresUnknown`  (D4: the value of an unknown member is not consumed)      → `visit_ignores_unknown_refuted`, `_partial`, and the positive theorem for the repaired visitor;
 * `BytesImportTotal`     (D3: p256/p384/k256 `from_secret_bytes` panics)           → `bytes_import_total_refuted`, `_partial`, `_fixed`;
 * `VisitOrderIndependent` is false for EVERY configuration because of the `use` / `key_ops` pair (not observable through any key)
                                                                                    → `visit_order_independent_refuted`, `_partial` (everything but `key_ops`), `import_order_independent`.
-`jwk_roundtrip` is an OPEN statement (see Lemmas/Jwk.lean); its symmetric-key half is false (D15): `oct_import_unsupported`.
+`parse_render` is the parser-correctness theorem for the encoder's output (byte level, every configuration, the parser's own fuel);
+`jwk_roundtrip` (export → text → import = the key, secret and public mode, all 8 asymmetric algorithms) is proved from it.
+Its symmetric-key half is false (D15): `oct_import_unsupported`.
 -/
 import AskarModel.Model.Jwk
 import AskarModel.Lemmas.Jwk
@@ -155,6 +158,50 @@ theorem import_checks {cfg : Cfg} {P : Prims} {alg : Alg} {j : Parts} {k : Key} 
 theorem oct_import_unsupported (cfg : Cfg) (P : Prims) (j : Parts) (h : j.kty = sb "oct") :
     fromJwkAny cfg P j = .err .unsupported := Jwk.oct_import_unsupported cfg P j h
 
+/-! ### export → JSON text → import
+
+`toJwk` is `JwkBufferEncoder` (no whitespace, no escapes); `fromJwk` runs the byte-level model of
+`serde_json_core::from_str::<JwkParts>` (`parseJwk`, which supplies its own fuel: text length + 2) and then `from_jwk_any`. -/
+
+/-- Parser correctness on everything the encoder can write: for every member list whose names and values contain neither `"`
+    nor `\` (`MembersClean`, a decidable check; the names `crv kty x y d alg k`, the curve / key-type / `alg` names and all
+    base64url text satisfy it — `Clean_b64encode`, `Clean_crv`), the byte-level parser run on the rendered text visits exactly
+    those members, in order, as string values.  Holds for every configuration and for unknown member names as well
+    (with D4 present both sides fail). -/
+theorem parse_render (cfg : Cfg) (ms : List Member) (hc : MembersClean ms = true) :
+    parseJwk cfg (renderMembers ms) = visit cfg (toks ms) := Jwk.parse_render cfg ms hc
+
+/-- base64url text is clean, whatever the bytes -/
+theorem b64_text_clean (b : Bytes) : Clean (b64encode b) = true := Jwk.Clean_b64encode b
+
+/-- Round trip, key pairs: for every asymmetric algorithm and every key pair with the lengths of `Alg.pubLen` / `Alg.secretLen`
+    whose public part is the public key of its secret (`Key.Consistent`), under the curve laws
+    (`Prims.CurveLaws`: a public key computed from a secret is on the curve, resp. is a canonical encoding) and nothing else:
+    the secret-mode export imports as the key, the public-mode export as its public half.  Every configuration. -/
+theorem jwk_roundtrip (cfg : Cfg) (P : Prims) (hP : P.CurveLaws) (k : Key) (ha : k.alg.isSymmetric = false)
+    (hs : k.WellSized) (hc : k.Consistent P) {d : Bytes} (hd : k.secret = some d) :
+    (∃ t, toJwk k .secretKey none = .ok t ∧ fromJwk cfg P t = .ok k) ∧
+    (∃ t, toJwk k .publicKey none = .ok t ∧ fromJwk cfg P t = .ok { k with secret := none }) :=
+  Jwk.jwk_roundtrip_keypair cfg P hP k ha hs hc hd
+
+/-- Round trip, any key (with or without secret), with the facts about the public part as hypotheses on the key instead of laws
+    on `P`: the stored point is on the curve (`Key.OnCurve`, Weierstrass curves only) and, where the import goes through the
+    crate's public-key decoder (no `d` in the text), the stored encoding is canonical (`Key.PubCanonical`; Ed25519 and BLS only).
+    For a public-only key these cannot be dropped: `Key.Consistent` says nothing about it, and the crates reject other bytes. -/
+theorem jwk_roundtrip_secret (cfg : Cfg) (P : Prims) (k : Key) (ha : k.alg.isSymmetric = false) (hs : k.WellSized)
+    (hc : k.Consistent P) (hoc : k.OnCurve P) (hpc : k.secret = none → k.PubCanonical P) :
+    ∃ t, toJwk k .secretKey none = .ok t ∧ fromJwk cfg P t = .ok k := Jwk.jwk_roundtrip_secret cfg P k ha hs hc hoc hpc
+
+theorem jwk_roundtrip_public (cfg : Cfg) (P : Prims) (k : Key) (ha : k.alg.isSymmetric = false) (hs : k.WellSized)
+    (hc : k.Consistent P) (hoc : k.OnCurve P) (hpc : k.PubCanonical P) :
+    ∃ t, toJwk k .publicKey none = .ok t ∧ fromJwk cfg P t = .ok { k with secret := none } :=
+  Jwk.jwk_roundtrip_public cfg P k ha hs hc hoc hpc
+
+/-- the hypotheses on the key follow from the laws for every key pair -/
+theorem keypair_pub_valid {P : Prims} (hP : P.CurveLaws) {k : Key} (hc : k.Consistent P) (ha : k.alg.isSymmetric = false)
+    {d : Bytes} (hd : k.secret = some d) : k.OnCurve P ∧ k.PubCanonical P :=
+  ⟨Jwk.Key.onCurve_of_laws hP hc ha hd, Jwk.Key.pubCanonical_of_laws hP hc ha hd⟩
+
 /-! ### non-vacuity: the hypotheses above are satisfiable (toy curve: public key = secret) -/
 
 def toy : Prims := { pubOf := fun _ d => some d, fromAffine := fun _ x y => some (x ++ y), decodePub := fun _ b => some b }
@@ -165,5 +212,43 @@ example : ∃ k, fromJwkParts Cfg.pinned toy .ed25519
   exact ⟨{ alg := .ed25519, secret := some (List.replicate 32 7), pub := List.replicate 32 7 }, by rfl⟩
 example : ∃ ms, encodeJwk { alg := .p256, secret := none, pub := List.replicate 64 1 } .thumbprint none = .ok ms := ⟨_, rfl⟩
 example : ([(sb "kty", JVal.str (sb "OKP")), (sb "x", JVal.str (sb "AA"))].map (·.1)).Nodup := by decide
+
+/-! non-vacuity of the round trip: a toy primitive record that satisfies the curve laws (public key = the secret repeated up to
+    the public length; every coordinate pair is a point; every encoding canonical), one Ed25519 and one P-256 key pair -/
+
+def toyRT : Prims :=
+  { pubOf := fun a d => some ((d ++ d ++ d ++ d ++ d).take a.pubLen), fromAffine := fun _ x y => some (x ++ y),
+    decodePub := fun _ b => some b }
+
+theorem toyRT_laws : toyRT.CurveLaws :=
+  ⟨fun _ _ p _ _ => congrArg some (List.take_append_drop _ p), fun _ _ _ _ _ => rfl, fun _ _ _ => ⟨rfl, rfl⟩⟩
+
+def edKey : Key := { alg := .ed25519, secret := some (List.replicate 32 7), pub := List.replicate 32 7 }
+def p256Key : Key := { alg := .p256, secret := some (List.range 32 |>.map UInt8.ofNat),
+                       pub := (List.range 32 ++ List.range 32) |>.map UInt8.ofNat }
+
+example : edKey.alg.isSymmetric = false ∧ edKey.WellSized ∧ edKey.Consistent toyRT :=
+  ⟨rfl, ⟨rfl, fun d h => by cases h; rfl⟩, fun d h _ => by cases h; decide⟩
+example : p256Key.alg.isSymmetric = false ∧ p256Key.WellSized ∧ p256Key.Consistent toyRT :=
+  ⟨rfl, ⟨rfl, fun d h => by cases h; rfl⟩, fun d h _ => by cases h; decide⟩
+
+example : (∃ t, toJwk edKey .secretKey none = .ok t ∧ fromJwk Cfg.current toyRT t = .ok edKey) ∧
+    (∃ t, toJwk edKey .publicKey none = .ok t ∧ fromJwk Cfg.current toyRT t = .ok { edKey with secret := none }) :=
+  jwk_roundtrip _ _ toyRT_laws edKey rfl ⟨rfl, fun d h => by cases h; rfl⟩ (fun d h _ => by cases h; decide) rfl
+example : (∃ t, toJwk p256Key .secretKey none = .ok t ∧ fromJwk Cfg.pinned toyRT t = .ok p256Key) ∧
+    (∃ t, toJwk p256Key .publicKey none = .ok t ∧ fromJwk Cfg.pinned toyRT t = .ok { p256Key with secret := none }) :=
+  jwk_roundtrip _ _ toyRT_laws p256Key rfl ⟨rfl, fun d h => by cases h; rfl⟩ (fun d h _ => by cases h; decide) rfl
+
+/-- the exported text of the Ed25519 key, literally, and the byte-level parser run on it (by evaluation, not by the theorem) -/
+example : toJwk edKey .publicKey none =
+    .ok (sb "{\"crv\":\"Ed25519\",\"kty\":\"OKP\",\"x\":\"BwcHBwcHBwcHBwcHBwcHBwcHBwcHBwcHBwcHBwcHBwc\"}") := by rfl
+example : fromJwk Cfg.pinned toyRT (sb "{\"crv\":\"Ed25519\",\"kty\":\"OKP\",\"x\":\"BwcHBwcHBwcHBwcHBwcHBwcHBwcHBwcHBwcHBwcHBwc\"}")
+    = .ok { edKey with secret := none } := by rfl
+
+/-- and a public-only key: the hypotheses on the public part are satisfiable too -/
+example : ∃ t, toJwk { p256Key with secret := none } .publicKey none = .ok t ∧
+    fromJwk Cfg.fixed toyRT t = .ok { p256Key with secret := none } :=
+  jwk_roundtrip_public _ _ { p256Key with secret := none } rfl ⟨rfl, fun d h => by cases h⟩ (fun d h _ => by cases h)
+    (fun _ => by decide) trivial
 
 end Askar.C14
